@@ -143,3 +143,54 @@ package client
 //@ func DecodeUpEdgePointsMsg
 //@   props C12
 //@   requires msg != nil
+
+// ---- serial-wrapper.go (C17) ------------------------------------------------------------
+// Packet layout: [seq] ++ subject padded with NULs to 16 bytes ++ payload ++ (CRC-16/CCITT, little endian;
+// not on "log" packets). ccitt() is the library checksum as a function of the bytes.
+
+//@ spec func le16(b []byte, i int) uint16 = uint16(b[i]) + uint16(b[i+1])*256
+//@ spec func crcTail(d []byte) bool = len(d) >= 19 && le16(d, len(d)-2) == ccitt(d[:len(d)-2])
+//@ spec func subjectOf(f []byte) string = str(f[trimLo(f):trimHi(f)])
+
+//@ func SerialDecode
+//@   props C17
+//@   ensures [C17] res3 == nil ==> len(d) >= 17 && res0 == d[0] && res1 == subjectOf(d[1:17])
+//@   ensures [C17] crc-checked: res3 == nil && res1 != "log" ==> crcTail(d) && sameSlice(res2, d[17:len(d)-2])
+//@   ensures [C17] res3 == nil && res1 == "log" ==> sameSlice(res2, d[17:])
+//@   ensures [C17] accepts-valid: len(d) >= 19 && crcTail(d) ==> res3 == nil
+//@   ensures [C17] accepts-log: len(d) >= 17 && subjectOf(d[1:17]) == "log" ==> res3 == nil
+
+//@ spec func nulFree(s string) bool = forall k int :: 0 <= k && k < len(s) ==> s[k] != 0
+
+//@ func SerialEncode
+//@   props C17
+//@   fresh res0
+//@   ensures [C17] len(subject) > 16 ==> res1 != nil
+//@   ensures [C17] res1 == nil ==> len(subject) <= 16 && len(res0) >= 17 && res0[0] == seq
+//@   ensures [C17] res1 == nil ==> (forall k int :: 0 <= k && k < len(subject) ==> res0[1:17][k] == subject[k])
+//@   ensures [C17] res1 == nil ==> (forall k int :: len(subject) <= k && k < 16 ==> res0[1:17][k] == 0)
+//@   ensures [C17] crc-appended: res1 == nil && subject != "log" ==> crcTail(res0)
+//@   loop 1:
+//@     invariant -1 <= rangeindex && rangeindex < len(points) || rangeindex == -1
+//@     invariant len(pbPoints) == len(points) && isfresh(pbPoints) && len(subject) <= 16
+//@     invariant len(bbuf(&ret)) == 17 && bbuf(&ret)[0] == seq
+//@     invariant forall k int :: 0 <= k && k < len(subject) ==> bbuf(&ret)[1+k] == subject[k]
+//@     invariant forall k int :: len(subject) <= k && k < 16 ==> bbuf(&ret)[1+k] == 0
+//@     modifies pbPoints
+//@     decreases len(points) - rangeindex
+
+//@ spec func subj(d []byte) []byte = d[1:17]
+//@ func verifSerialRoundTrip
+//@   props C17
+//@   assert [C17] rt-layout: len(subject) <= 16 && len(d) >= 17 && (forall k int :: 0 <= k && k < 16 ==> subj(d)[k] == ite(k < len(subject), subject[k], 0)) at "SerialDecode(d)"
+//@   assert [C17] rt-first-byte: nulFree(subject) && len(subject) > 0 ==> subj(d)[0] != 0 && subj(d)[len(subject)-1] != 0 at "SerialDecode(d)"
+//@   assert [C17] rt-trim-nonempty: nulFree(subject) && len(subject) > 0 ==> trimLo(subj(d)) < trimHi(subj(d)) at "SerialDecode(d)"
+//@   assert [C17] rt-trim-lo: nulFree(subject) && len(subject) > 0 ==> trimLo(subj(d)) == 0 at "SerialDecode(d)"
+//@   assert [C17] rt-trim-hi-le: nulFree(subject) && len(subject) > 0 ==> trimHi(subj(d)) <= len(subject) at "SerialDecode(d)"
+//@   assert [C17] rt-trim-hi-ge: nulFree(subject) && len(subject) > 0 ==> trimHi(subj(d)) >= len(subject) at "SerialDecode(d)"
+//@   assert [C17] rt-trim-empty: len(subject) == 0 ==> trimLo(subj(d)) == trimHi(subj(d)) at "SerialDecode(d)"
+//@   assert [C17] rt-subject: nulFree(subject) ==> subjectOf(subj(d)) == subject at "SerialDecode(d)"
+//@   ensures [C17] serial-roundtrip-accepted: nulFree(subject) && res0 != nil ==> res4 == nil
+//@   ensures [C17] serial-roundtrip: res4 == nil && nulFree(subject) ==> res1 == seq && res2 == subject
+//@   ensures [C17] serial-roundtrip-payload: res4 == nil && subject != "log" && nulFree(subject) ==> res3 == res0[17:len(res0)-2]
+//@   ensures [C17] serial-roundtrip-log: res4 == nil && subject == "log" ==> res3 == res0[17:]
